@@ -311,10 +311,14 @@ def judge_c02(ctx, mode, extra, obs, acc):
 def judge_c03(ctx, mode, extra, obs, acc):
     found = []
     for fk, i, r, rmap, qmap, second, joined in records(ctx, mode, obs):
-        if not record_valid(r, rmap, qmap):
+        if not r['pairs'] or r['Orientation'] not in ('+', '-'):
             if acc is not None:
-                acc.classes['deferred-to-C01(invalid matching)'] += 1
+                acc.classes['deferred-to-C01(no pairs / orientation)'] += 1
             continue
+        # records whose pair list is not a valid matching are judged too: no HitEnum string can replay to such a list, so the
+        # statement of C03 fails for them as well (C01 reports the root cause)
+        if acc is not None and not record_valid(r, rmap, qmap):
+            acc.classes['records-with-invalid-matching'] += 1
         rev = r['Orientation'] == '-'
         for pr in hitenum_problems(r['HitEnum'], r['pairs'], rev):
             found.append((pr, 'mode=%s file=%s hit=%r pairs=%s %s' % (mode, fk, r['HitEnum'], r['pairs'], r['Orientation']),
